@@ -136,3 +136,69 @@ Ltac gen_auto :=
   gen_compare; autounfold with gen_pre in *; cbv zeta in *;
   gen_split;                                   (* the conditionals inside big_div, big_cmp, ... *)
   gen_facts; gen_small; gen_fin.
+
+(* ================= second tier: loops over slices ================= *)
+(* General facts about the list operations the translator emits.  The loop lemmas of the _gen files are inductions
+   over the list (or the count) with the accumulators generalised; [gen_step] does one step of a generated loop
+   function without touching the recursive call. *)
+
+Lemma sort_by_ext {A} (le le' : A -> A -> bool) l :
+  (forall a b, le a b = le' a b) -> sort_by le l = sort_by le' l.
+Proof.
+  intros H. induction l as [|x l IH]; cbn [sort_by]; [reflexivity|]. rewrite IH.
+  generalize (sort_by le' l). intros s. induction s as [|y s IHs]; cbn [insert_by]; [reflexivity|].
+  rewrite H. destruct (le' x y); [reflexivity|]. now rewrite IHs.
+Qed.
+
+Lemma insert_by_map {A B} (f : A -> B) (le : A -> A -> bool) (le' : B -> B -> bool) x l :
+  (forall a b, le' (f a) (f b) = le a b) -> map f (insert_by le x l) = insert_by le' (f x) (map f l).
+Proof.
+  intros H. induction l as [|y l IH]; cbn [insert_by map]; [reflexivity|].
+  rewrite H. destruct (le x y); cbn [map]; [reflexivity|]. now rewrite IH.
+Qed.
+
+Lemma sort_by_map {A B} (f : A -> B) (le : A -> A -> bool) (le' : B -> B -> bool) l :
+  (forall a b, le' (f a) (f b) = le a b) -> map f (sort_by le l) = sort_by le' (map f l).
+Proof.
+  intros H. induction l as [|x l IH]; cbn [sort_by map]; [reflexivity|].
+  rewrite (insert_by_map f le le' x (sort_by le l) H). now rewrite IH.
+Qed.
+
+Lemma forallb_map' {A B} (f : B -> bool) (g : A -> B) l : forallb f (map g l) = forallb (fun x => f (g x)) l.
+Proof. induction l as [|x l IH]; cbn [map forallb]; [reflexivity|]. now rewrite IH. Qed.
+
+Lemma slice_copy_fresh {A} (z : A) (l : list A) : slice_copy (repeat z (length l)) l = l.
+Proof.
+  unfold slice_copy. rewrite repeat_length, firstn_all.
+  rewrite skipn_all2 by (rewrite repeat_length; apply Nat.le_refl). apply app_nil_r.
+Qed.
+
+Lemma list_set_spec {A} (l : list A) n v :
+  (n < length l)%nat -> list_set l n v = Some (firstn n l ++ v :: skipn (S n) l).
+Proof.
+  revert n. induction l as [|h t IH]; intros n Hn; cbn [length] in Hn; [lia|].
+  destruct n as [|n]; cbn [list_set firstn skipn app]; [reflexivity|].
+  rewrite IH by lia. reflexivity.
+Qed.
+
+Lemma slice_set_spec {A} (l : list A) i v :
+  (0 <= i < Z.of_nat (length l))%Z ->
+  slice_set l i v = Some (firstn (Z.to_nat i) l ++ v :: skipn (S (Z.to_nat i)) l).
+Proof.
+  intros H. unfold slice_set. destruct (Z.ltb_spec i 0); [lia|]. apply list_set_spec. lia.
+Qed.
+
+Lemma slice_at_spec {A} (l : list A) i d :
+  (0 <= i < Z.of_nat (length l))%Z -> slice_at l i = Some (nth (Z.to_nat i) l d).
+Proof.
+  intros H. unfold slice_at. destruct (Z.ltb_spec i 0); [lia|]. apply nth_error_nth'. lia.
+Qed.
+
+Lemma half_nat n : Z.to_nat (Z.quot (Z.of_nat n) 2) = Nat.div2 n.
+Proof.
+  rewrite Z.quot_div_nonneg by lia. rewrite Nat.div2_div.
+  change 2%Z with (Z.of_nat 2). rewrite <- Nat2Z.inj_div. apply Nat2Z.id.
+Qed.
+
+(* one step of a generated loop function [f] on a list / count that is a constructor application *)
+Ltac gen_step f := cbn [f]; cbv zeta.
